@@ -22,6 +22,13 @@ def downstreamVia (k c value error : α) : α × α :=
   Expr.propagate (fun _ => value) (fun _ => error) (fun _ _ => Num.ofNat 0)
     (.bin .mul (.const (Num.ofNat 1)) (.bin .add (.bin .mul (.const k) (.var 0)) (.const c)))
 
+/-- `mid * mid` where `mid = k * a` was made earlier: a calculation that is NOT linear in the
+    intermediate result, so the derivative rules need the intermediate's central value -- it, too, is
+    the formula evaluated at the measurement's value NOW. -/
+def downstreamSq (k value error : α) : α × α :=
+  Expr.propagate (fun _ => value) (fun _ => error) (fun _ _ => Num.ofNat 0)
+    (.bin .mul (.bin .mul (.const k) (.var 0)) (.bin .mul (.const k) (.var 0)))
+
 end QExPy.Stats
 
 /-! ### two repeated measurements in one later calculation
